@@ -9,6 +9,7 @@ import (
 	"strings"
 
 	"verif/harness/opdrv"
+	"verif/harness/tbldrv"
 )
 
 func main() {
@@ -96,7 +97,15 @@ type common struct {
 	routers                   []string
 }
 
-var subcommands = map[string]func(common){}
+var subcommands = map[string]func(common){
+	"tbl-redirect": func(c common) { table(c, tbldrv.RedirectCase) },
+}
+
+func table(c common, f func(*tbldrv.Case) tbldrv.M) {
+	n, err := tbldrv.Run(c.in, c.out, 0, f)
+	check(err)
+	fmt.Printf("EXECUTED cases=%d\n", n)
+}
 
 func fileOrNil(f *os.File) interface {
 	Write([]byte) (int, error)
